@@ -60,8 +60,9 @@ IMPORTS_SPEC = 'From PyRTL Require Import Netlist.Sem Netlist.WFDefs Netlist.Spe
 IMPORTS_FAST = 'From PyRTL Require Import Sim.FastModel Sim.FastModelHarness.'
 IMPORTS_CLIMB = 'From PyRTL Require Import Netlist.Syntax Sim.CLimb Sim.CLimbHarness.'
 IMPORTS_CEMIT = 'From PyRTL Require Import Sim.CEmitModel Sim.CEmitHarness.'
+IMPORTS_HASH = 'From PyRTL Require Import Sim.CEmitHash.'
 COQ_TARGETS = ['theories/Netlist/SpecHarness.vo', 'theories/Sim/FastModelHarness.vo',
-               'theories/Sim/CLimbHarness.vo', 'theories/Sim/CEmitHarness.vo']
+               'theories/Sim/CLimbHarness.vo', 'theories/Sim/CEmitHarness.vo', 'theories/Sim/CEmitHash.vo']
 TRUSTED = ['Sim/CLimb.v `limbs_to_Z` / `limbs_ok` + the per-builder statements in Props/C02.v (what a limb array denotes)',
            'Sim/CLimb.v and Sim/FastModel.v are hand transliterations of the emitters (tied by translated fragments: mask '
            'tables, emitted expression texts, assignment templates, _limbs/_makemask/_getarglimb, concat loop-test order; '
@@ -1093,6 +1094,45 @@ def run(ctx):
     except Exception as e:  # noqa
         ctx.model_mismatch('Sim/CEmitModel.v could not be evaluated: %s' % str(e)[-600:], {})
     mark('coq-cemit')
+
+    # the C hash map model (Sim/CEmitHash.v) replays every memory's history: initialize_mems() inserts in
+    # memory_value_map order, then the enabled writes cycle by cycle (operands from Simulation's trace)
+    hm_jobs = []
+    for case in cases:
+        if isinstance(case['py']['sim'], str) or isinstance(case['comp'], str):
+            continue
+        trace = case['py']['sim'][0]
+        for m in block_mems(case['block']):
+            if isinstance(m, pyrtl.RomBlock):
+                continue
+            nl_ = (m.bitwidth + 63) // 64
+            limbs = lambda v: [(v >> (64 * k)) & ((1 << 64) - 1) for k in range(nl_)]   # noqa: E731
+            ops = [(a, limbs(v)) for a, v in case['memmap'].get(m, {}).items()]
+            wnets = [n for n in case['ordered_nets'] if n.op == '@' and n.op_param[1] is m]
+            for t in range(len(case['inputs'])):
+                for n in wnets:
+                    if trace[n.args[2].name][t]:
+                        ops.append((trace[n.args[0].name][t], limbs(trace[n.args[1].name][t])))
+            addrs = mem_addr_list(case, m)
+            if len(ops) > 300 or m.addrwidth > 64:
+                continue
+            hm_jobs.append((case, m, nl_, ops, addrs))
+    if hm_jobs:
+        try:
+            hm_res = ctx.coq_eval(['hm_replay %d [%s] %s' % (
+                nl_, '; '.join('(%s, %s)' % (hexlit(a), '[' + '; '.join(hexlit(x) for x in ls) + ']') for a, ls in ops),
+                nlx.zlist(addrs)) for (_, _, nl_, ops, addrs) in hm_jobs], IMPORTS_HASH, tag='c02hash',
+                shard=40, jobs=WORKERS)
+            for (case, m, nl_, ops, addrs), res in zip(hm_jobs, hm_res):
+                got = {a: sum(x << (64 * k) for k, x in enumerate(ls)) for a, ls in zip(addrs, res)}
+                ctx.count('hashmap_replay', 'memories replayed')
+                ctx.count('hashmap_replay_inserts', min(len(ops), 40) // 10 * 10)
+                if got != case['comp'][1][m.id]:
+                    ctx.model_mismatch('Sim/CEmitHash.v replay of memory %s#id%d differs from CompiledSimulation.inspect_mem'
+                                       % (m.name, m.id), replay_dict(ctx, case, {'ops': str(ops)[:2000]}))
+        except Exception as e:  # noqa
+            ctx.model_mismatch('Sim/CEmitHash.v could not be evaluated: %s' % str(e)[-600:], {})
+    mark('coq-hash')
 
     # CLimb samples: nets x cycles of the pre-synthesis / optimized blocks with operand values from Simulation
     samples = []
